@@ -53,6 +53,7 @@ def cases(tier):
         cs.append(dict(kind='wrapup', trials=trials, hard2=False))
     cs.append(dict(kind='wrapup', trials=1, hard2=True))   # a movable hard module of two rectangles with different areas
     cs.append(dict(kind='wrapup', trials=1, hard2=False, pads=True))   # plus movable terminals: a bare point and a pad with a footprint
+    cs.append(dict(kind='wrapup', trials=1, hard2=False, softrect=True))   # a soft module with a (small) rectangle
     if tier == 'thorough':
         cs.append(dict(kind='wrapup', trials=3, hard2=True))
     return cs
@@ -214,6 +215,8 @@ def body_wrapup(I, case):
     mods = {}
     for i in range(3):
         mods[f'S{i}'] = {'area': areas[i], 'center': [I.real(f'cx{i}', 0, 100), I.real(f'cy{i}', 0, 100)]}
+    if case.get('softrect'):   # a soft module that carries a rectangle smaller than its declared area (its disc is that of the AREA)
+        mods['S2'] = {'area': areas[2], 'rectangles': [[I.real('cx2', 0, 100), I.real('cy2', 0, 100), 0.1, 0.1]]}
     hard_rects = [[hx, hy, 2.0, 1.0]]
     if case['hard2']:
         hard_rects.append([hx, hy + 1.0, 1.0, 1.0])
